@@ -52,12 +52,19 @@ package meta
 
 //@ ghost pred garbKeyPresent() bool
 //@ callrule c02_garbage_key_lookup in markGarbageInContainer
-//@   property C02
+//@   property C02 C01
 //@   callee bytes.Equal
 //@   pureeffect
 //@   defines result == garbKeyPresent()
+// (C01: "not found if it is marked as garbage".) An object that already carries a garbage mark
+// keeps at least that mark: the stored mark is rewritten only to upgrade a redundant-copy mark
+// - which still reports the object as available - to the default one, never the other way.
+//@ callrule c01_existing_mark_is_only_upgraded in markGarbageInContainer
+//@   property C01
+//@   callee (*bbolt.Bucket).Put
+//@   requires [existing_mark_rewritten_only_to_the_default_mark] garbKeyPresent() ==> len(a1) == 0
 //@ callrule c02_mark_collaborators in markGarbageInContainer
-//@   property C02
+//@   property C02 C01
 //@   callee (*bbolt.Cursor).*, (*bbolt.Bucket).*, metabase.get, metabase.inGarbage, metabase.getObjAttribute, metabase.mkGarbageKey, (*oid.Address).*, (*object.Object).*, (object.Object).*
 //@   pureeffect
 //@ func markGarbageInContainer
@@ -447,6 +454,32 @@ package meta
 //@   property C01 C07
 //@   mode bv
 //@   ensures [expired_strictly_after_the_expiration_epoch] result == (expAttrPresent() && expAttrParses() && currEpoch > expAttrEpoch())
+
+// Expired-object iteration yields exactly the expired, UNLOCKED objects: every object handed
+// to the handler was asked about - this object, at the current epoch - and found not locked,
+// whatever its type (a lock stored before its target may end up protecting any object).
+//@ ghost field expiredUnlocked(x int) bool
+//@ callrule c01_next_expired_item in (*DB).iterateExpired$1
+//@   property C01 C07
+//@   callee metabase.keyToEpochOID
+//@   pureeffect
+//@   assigns expiredUnlocked
+//@   defines !expiredUnlocked(0)
+//@ callrule c01_expired_item_lock_check in (*DB).iterateExpired$1
+//@   property C01 C07
+//@   callee metabase.objectLocked
+//@   pureeffect
+//@   assigns expiredUnlocked
+//@   requires [lock_asked_for_this_object_at_the_current_epoch] a0 == curEpoch && a2 == id
+//@   defines expiredUnlocked(0) == !result
+//@ callrule c01_only_unlocked_objects_are_yielded in (*DB).iterateExpired$1
+//@   property C01 C07
+//@   callee dynamic:*
+//@   requires [yielded_object_was_found_unlocked] expiredUnlocked(0)
+//@ callrule c01_expired_iteration_collaborators in (*DB).iterateExpired$1
+//@   property C01 C07
+//@   callee (*bbolt.Cursor).*, (*bbolt.Bucket).*, metabase.fetchTypeForIDWBuf, metabase.parseContainerIDWithPrefix, metabase.containerMarkedGC, (*id.Address).*, (id.ID).*, (*oid.Address).*, (oid.ID).*, (*zap.Logger).*, zap.*
+//@   pureeffect
 
 //@ callrule c01_direct_answer in objectStatusNested
 //@   property C01
